@@ -46,6 +46,16 @@ CHECKS["C15"] = dict(
    text="Every rejection by DocumentMut, ImDocument, toml::from_str and toml_edit::de::from_str must carry a non-empty message, a span inside the document on char boundaries, render without panic with `line L, column C` equal to an independent character-based computation and the right echoed line; typed mismatches must be located at the offending item's source range (text available) or by key path (DocumentMut). Sampled exploration plus exhaustive truncation of all fixtures <= 600 bytes.",
    note="expected positions follow the wording of the property; known finding F14 (empty message for a stray CR, pinned by the repository's own tests) is tolerated under a narrow signature",
    design="4/C15")
+CHECKS["C04"] = dict(
+   technique="generated and mutated byte strings through every entry point in a child process with debug assertions and overflow checks; panics caught and shrunk by proptest, process death bisected, per-input time budget",
+   text="800k (quick) / 20M (thorough) byte strings - random bytes, mutants of generated and corpus documents incl. invalid UTF-8, structure-aware extremes, plus every truncation of every corpus document <= 400 bytes - go through 20 entry points and everything a caller can do with the result. No panic, no process death; a time-budget overrun is reported as inconclusive. Sampled exploration; absence of hangs is only observed, not proved.",
+   note="debug-assertions and overflow-checks on (profile chk); termination judged by a generous wall-clock budget (exit 2 when exceeded)",
+   design="4/C04")
+CHECKS["C05"] = dict(
+   technique="grammar-based generation of nesting combinations executed in worker processes on 2 MiB threads (debug and release builds); limit search per construct; delta-reduction of failures",
+   text="Every single nesting construct is swept over depths 1..200 (limit must exist, no holes, <= 79 accepted) and 1.5k (quick) / 40k (thorough) multiplicative combinations are parsed, printed, debug-printed, cloned, dropped and deserialized on a 2 MiB thread in a debug and a release build: the worker must survive and any accepted document must have decoded depth <= 256.",
+   note="stack behaviour is that of this toolchain/platform (x86-64 Linux); the depth bound 256 is the harness' constant, above anything additive composition of per-construct limits of 80 can reach",
+   design="4/C05")
 NOT_YET = {}
 
 def main():
@@ -70,7 +80,7 @@ def main():
             na.append({"property_id": i, "reason": NOT_YET.get(i, "check not built yet in this revision of /verif (planned in DESIGN.md section 4); not claimed until it exists")})
     m={
       "version":1,
-      "setup_cmd":"cd /verif/harness && CARGO_NET_OFFLINE=true cargo build --profile chk -p vcheck",
+      "setup_cmd":"cd /verif/harness && CARGO_NET_OFFLINE=true cargo build --profile chk -p vcheck && CARGO_NET_OFFLINE=true cargo build -p c05worker && CARGO_NET_OFFLINE=true cargo build --release -p c05worker",
       "hooks":{"guard":"toml_verif","enable":"none needed: every observation point is public API; checks build /repo through path dependencies (RUSTFLAGS --cfg toml_verif would enable hooks if any existed)","baseline_off_cmd":"cd /repo && cargo test --workspace --no-fail-fast --offline","source_commits":[],"add_only":True},
       "engines":[{"name":"vcheck","path":"/verif/harness","serves_properties":sorted(CHECKS),"kind_free_text":"Rust harness: proptest TestRunner over choice tapes (generation + shrinking), exhaustive small-scope enumerators, model-based op interpreters, cargo-fuzz targets; oracles: independent reference decoder, by-construction renderer, round-trips, differentials"}],
       "checks":checks,
